@@ -14,8 +14,8 @@ func init() {
 			ruleWatcher(c, "C01.9")
 			ruleDecodeResets(c, "C01.10")
 		},
-		Explain: "Static structural necessary conditions of exactly-once/in-order/intact delivery on the right RPC, decided on the SSA form of the current tree: byte accounting of the chunk loops in both senders, envelope/continuation construction in both send callbacks, the state machine of both reassembly functions (every loop edge and every return classified), non-nil error whenever no data is returned (marker-before-wake argument), routing by the received frame's own id, id origin of every emitted frame, FIFO/drain-before-EOF discipline of the queue, single consumer under the read mutex. All paths, all instantiations; no bound on sizes or schedules. Not the behaviour itself: byte equality through protobuf and the transport are trusted.",
-		Assume: []string{"protobuf marshal/unmarshal and the carrier transport deliver bytes unchanged and in order", "gRPC's one-sender/one-receiver-per-stream contract", "container/list is FIFO with PushBack/Front"},
+		Explain:    "Static structural necessary conditions of exactly-once/in-order/intact delivery on the right RPC, decided on the SSA form of the current tree: byte accounting of the chunk loops in both senders, envelope/continuation construction in both send callbacks, the state machine of both reassembly functions (every loop edge and every return classified), non-nil error whenever no data is returned (marker-before-wake argument), routing by the received frame's own id, id origin of every emitted frame, FIFO/drain-before-EOF discipline of the queue, single consumer under the read mutex. All paths, all instantiations; no bound on sizes or schedules. Not the behaviour itself: byte equality through protobuf and the transport are trusted.",
+		Assume:     []string{"protobuf marshal/unmarshal and the carrier transport deliver bytes unchanged and in order", "gRPC's one-sender/one-receiver-per-stream contract", "container/list is FIFO with PushBack/Front"},
 		NotDecided: []string{"byte equality end-to-end", "which prefix is delivered when an RPC is cut short (only that it is a prefix)", "plain (revision-zero) receiver channel hand-off ordering beyond Go channel FIFO semantics"},
 	})
 	register("C05", &propDef{
@@ -28,8 +28,8 @@ func init() {
 			ruleShortLocks(c, "C05.10")
 			ruleQueueDiscipline(c, "C05.8")
 		},
-		Explain: "Shape conditions of the standard no-lost-wake-up / no-credit-leak argument, decided statically: token channel capacity >= 1, token sent whenever the window was empty before the add, sender waits only at window == 0 inside a loop that reloads after waking and has a context alternative, CAS reservation against the loaded value, credit identity (exactly measure(item) subtracted on accept, added back and sent as window update on dequeue; measure closures cover exactly the data-bearing frames), window updates sent off the receiver's lock and off the receive loops, consumer woken on empty->non-empty. These are necessary conditions; absence of lost wake-ups under all interleavings as such is a model-checking question and is not claimed.",
-		Assume: []string{"sync/atomic and channel semantics of the Go memory model", "VTA call graph over-approximates dynamic calls"},
+		Explain:    "Shape conditions of the standard no-lost-wake-up / no-credit-leak argument, decided statically: token channel capacity >= 1, token sent whenever the window was empty before the add, sender waits only at window == 0 inside a loop that reloads after waking and has a context alternative, CAS reservation against the loaded value, credit identity (exactly measure(item) subtracted on accept, added back and sent as window update on dequeue; measure closures cover exactly the data-bearing frames), window updates sent off the receiver's lock and off the receive loops, consumer woken on empty->non-empty. These are necessary conditions; absence of lost wake-ups under all interleavings as such is a model-checking question and is not claimed.",
+		Assume:     []string{"sync/atomic and channel semantics of the Go memory model", "VTA call graph over-approximates dynamic calls"},
 		NotDecided: []string{"absence of lost wake-ups under all interleavings of the atomic steps", "completion of streams of unbounded volume", "deadlock freedom with bounded transport buffering beyond 'no window update on a loop goroutine / under the receiver lock'"},
 	})
 	register("C06", &propDef{
@@ -43,8 +43,8 @@ func init() {
 			ruleServerCancel(c, "C06.8a", "C06.8")
 			ruleRevisionZeroFrames(c, "C06.9")
 		},
-		Explain: "Static necessary conditions of window discipline: reserve-before-send by CAS with the chunk clamped to window, remaining data and 16 KiB; protocol constants equal the specification and advertised == enforced on each end, senders built with the peer's advertised window; the receiver enqueues only on the false edge of exactly measure > window, subtracts exactly measure, and answers an overrun with ResourceExhausted that reaches only that stream's finishing function; credit granted equals data consumed (credit identity). The running-sum invariant on the wire is not decided as such.",
-		Assume: []string{"uint32 arithmetic does not wrap for conforming peers", "VTA call graph over-approximates dynamic calls"},
+		Explain:    "Static necessary conditions of window discipline: reserve-before-send by CAS with the chunk clamped to window, remaining data and 16 KiB; protocol constants equal the specification and advertised == enforced on each end, senders built with the peer's advertised window; the receiver enqueues only on the false edge of exactly measure > window, subtracts exactly measure, and answers an overrun with ResourceExhausted that reaches only that stream's finishing function; credit granted equals data consumed (credit identity). The running-sum invariant on the wire is not decided as such.",
+		Assume:     []string{"uint32 arithmetic does not wrap for conforming peers", "VTA call graph over-approximates dynamic calls"},
 		NotDecided: []string{"the per-prefix running-sum invariant on the wire", "memory use", "uint32 wrap on absurd window updates (observation O-4)"},
 	})
 }
@@ -67,8 +67,8 @@ func init() {
 			ruleEmitIDs(c, "C03.10")
 			ruleRejectClose(c, "C03.10b")
 		},
-		Explain: "Static necessary conditions of RPC independence: the effect set reachable on each receive loop's own goroutine (over resolved call edges minus go sites, restricted to code that continues the loop) contains no carrier send, blocking channel operation, cond/WaitGroup wait or user callback; every lock the loops take is short (no such effect anywhere while it may be held; frozen exceptions named); tunnel-level termination is reachable only for Recv failure / never-created id / reused id; stream-level rejections are recorded in the high-water mark before returning; window updates never run on a loop goroutine or under the receiver's lock. Liveness ('never indefinitely delays') is not decided.",
-		Assume: []string{"a conforming peer's receive loop never waits on us (needed for the server write-mutex exception)", "VTA call graph over-approximates dynamic calls", "external callees are summarised (context, metadata, status, list: non-blocking)"},
+		Explain:    "Static necessary conditions of RPC independence: the effect set reachable on each receive loop's own goroutine (over resolved call edges minus go sites, restricted to code that continues the loop) contains no carrier send, blocking channel operation, cond/WaitGroup wait or user callback; every lock the loops take is short (no such effect anywhere while it may be held; frozen exceptions named); tunnel-level termination is reachable only for Recv failure / never-created id / reused id; stream-level rejections are recorded in the high-water mark before returning; window updates never run on a loop goroutine or under the receiver's lock. Liveness ('never indefinitely delays') is not decided.",
+		Assume:     []string{"a conforming peer's receive loop never waits on us (needed for the server write-mutex exception)", "VTA call graph over-approximates dynamic calls", "external callees are summarised (context, metadata, status, list: non-blocking)"},
 		NotDecided: []string{"scheduler/transport progress and fairness", "behaviour with a non-conforming peer beyond C09", "unencodable (non-UTF-8) metadata ending the tunnel: reported under C02.8 as a known finding"},
 	})
 }
